@@ -132,7 +132,10 @@ def OutMsg.size : OutMsg → Nat
 
 /-- what became of a frame that was queued for a client (ghost) -/
 inductive Fate
-  | sent | svcChange | closed | overflow | flushed
+  | sent | svcChange | closed
+  /-- lost to a queue overflow; `lag` = number of frames that were queued and unsent for this client -/
+  | overflow (lag : Nat)
+  | flushed
 deriving Repr, DecidableEq
 
 /-- `PROXY_CLNT` plus the client's end of the socket -/
@@ -151,10 +154,11 @@ structure Client where
   chnInd : Nat := 0                   -- chn_status_ind
   rdReady : Bool := false             -- FD_ISSET(fd, rd) of the current iteration
   wrReady : Bool := false
-  /-- ghost: sequence numbers of the frames captured while the client was subscribed, newest first -/
-  expected : List Nat := []
+  /-- ghost: the frames captured while the client was subscribed (as read from the device: sequence number,
+  capture timestamp, lines), newest first -/
+  expected : List Frame := []
   /-- ghost: frames taken from the queue for this client and what became of them, newest first -/
-  done : List (Nat × Fate) := []
+  done : List (Frame × Fate) := []
 deriving Repr, DecidableEq
 
 /-- the eligibility test of `vbi_proxyd_forward_data` -/
@@ -251,35 +255,43 @@ def stopAcq (s : State) : State :=
              log := s.log ++ [.closed] }
   else s
 
-/-- `vbi_proxyd_update_services (dev, p_new_req, ...)`; `req` = id of the requesting client -/
-def updateServices (cfg : Cfg) (s : State) (req : Option Nat) : State × Bool :=
-  let (s1, res0) :=
-    if !s.dev.opened then
-      if s.clients.any (fun c => anyServices c.services) then (startAcq cfg s, true)
-      else if !s.dev.apiKnown then (stopAcq (startAcq cfg s), true)
-      else (s, true)
-    else (s, false)
-  if !s1.dev.opened then (s1, res0) else
+/-- first part of `vbi_proxyd_update_services`: the device is opened if it is closed and anybody has requests
+(or once, to learn the driver API) -/
+def updStage1 (cfg : Cfg) (s : State) : State × Bool :=
+  if !s.dev.opened then
+    if s.clients.any (fun c => anyServices c.services) then (startAcq cfg s, true)
+    else if !s.dev.apiKnown then (stopAcq (startAcq cfg s), true)
+    else (s, true)
+  else (s, false)
+
+/-- what the service loop of `vbi_proxyd_update_services` does to one client; `req` = id of the requesting client -/
+def updClient (cfg : Cfg) (req : Option Nat) (c : Client) : Client :=
+  if c.state != .forward then c else
+  let c1 := { c with allServices := allOf cfg c.services }
+  if req == some c.id then { c1 with services := maskServices cfg c.services } else c1
+
+/-- second part (device open): service loop, scanning, `all_services` / `max_lines`, queue allocation or stop -/
+def updStage2 (cfg : Cfg) (s1 : State) (req : Option Nat) : State × Bool :=
   let calls := updCalls cfg s1.clients true
-  let cl := s1.clients.map (fun c =>
-    if c.state != .forward then c else
-    let c1 := { c with allServices := allOf cfg c.services }
-    if req == some c.id then { c1 with services := maskServices cfg c.services } else c1)
+  let cl := s1.clients.map (updClient cfg req)
   let devServices := cl.foldl (fun acc c => if c.state == .forward then acc ||| c.allServices else acc) 0
   let decScanning := if calls.isEmpty then s1.dev.decScanning else cfg.scanning
   let active := if calls.isEmpty then s1.dev.active else devServices
   -- vbi_proxyd_update_scanning (dev_idx, NULL, p_decoder->scanning)
-  let (cl, scanning) :=
-    if decScanning != s1.dev.scanning then
-      (cl.map (fun c => { c with chnInd := c.chnInd ||| chnNorm }), decScanning)
-    else (cl, s1.dev.scanning)
+  let cl2 := if decScanning != s1.dev.scanning then cl.map (fun c => { c with chnInd := c.chnInd ||| chnNorm }) else cl
+  let scanning := if decScanning != s1.dev.scanning then decScanning else s1.dev.scanning
   let d := { s1.dev with active := active, decScanning := decScanning, scanning := scanning }
-  let s2 := { s1 with clients := cl, log := s1.log ++ calls }
+  let s2 := { s1 with clients := cl2, log := s1.log ++ calls }
   if devServices != 0 then
     let d := { d with allServices := devServices, maxLines := cfg.count active }
-    ({ s2 with dev := allocate d cl }, true)
+    ({ s2 with dev := allocate d cl2 }, true)
   else
     (stopAcq { s2 with dev := d }, calls.isEmpty)
+
+/-- `vbi_proxyd_update_services (dev, p_new_req, ...)`; `req` = id of the requesting client -/
+def updateServices (cfg : Cfg) (s : State) (req : Option Nat) : State × Bool :=
+  let r := updStage1 cfg s
+  if !r.1.dev.opened then r else updStage2 cfg r.1 req
 
 /-! ## operations on one client (by position in the client list) -/
 
@@ -294,7 +306,7 @@ def releaseOwn (s : State) (i : Nat) (fate : Fate) : Except Err State :=
     match releaseAllQ s.dev.q s.dev.free c.backlog with
     | .error e => .error e
     | .ok (q, f) =>
-      let seqs := (s.dev.q.take c.backlog).map (·.frame.seq)
+      let seqs := (s.dev.q.take c.backlog).map (·.frame)
       .ok (setClient { s with dev := { s.dev with q := q, free := f } } i
         { c with backlog := 0, done := seqs.map (·, fate) ++ c.done })
 
@@ -404,12 +416,47 @@ def forwardLoop : Nat → State → Nat → Except Err State
       match releaseQ s.dev.q s.dev.free c.backlog with
       | .error er => .error er
       | .ok (q, f) =>
-        let c2 := { c1 with backlog := c.backlog - 1, done := (e.frame.seq, Fate.sent) :: c1.done }
+        let c2 := { c1 with backlog := c.backlog - 1, done := (e.frame, Fate.sent) :: c1.done }
         let s1 := setClient { s with dev := { s.dev with q := q, free := f } } i c2
         let s2 := match completed with
           | some cm => { s1 with msgs := s1.msgs ++ [(c.id, some cm)] }
           | none => s1
         if blocked then .ok s2 else forwardLoop fuel s2 i
+
+/-- first half of the body of the loop of `vbi_proxyd_handle_client_sockets` for the client `c` at position `i`:
+read a message / continue writing; returns the state and `io_blocked` -/
+def hcStage1 (cfg : Cfg) (s : State) (i : Nat) (c : Client) : Except Err (State × Bool) :=
+  if c.rdReady && c.out.isNone then
+    match c.inbox with
+    | [] => (closeClient s i).map (·, false)        -- zero read: connection closed by the peer
+    | m :: rest =>
+      match takeMessage cfg (setClient s i { c with inbox := rest }) i m with
+      | .error e => .error e
+      | .ok (some s1) => .ok (s1, false)
+      | .ok none => (closeClient (setClient s i { c with inbox := rest }) i).map (·, false)
+  else if c.wrReady && c.out.isSome then
+    let (c1, blocked, ok, completed) := handleWrite c
+    let s1 := setClient s i c1
+    let s1 := match completed with
+      | some cm => { s1 with msgs := s1.msgs ++ [(c.id, some cm)] }
+      | none => s1
+    if ok then .ok (s1, blocked) else (closeClient s1 i).map (·, blocked)
+  else .ok (s, false)
+
+/-- second half: close on WAIT_CLOSE, channel-change indication, forward queued frames -/
+def hcStage2 (s1 : State) (i : Nat) (blocked : Bool) : Except Err State :=
+  match s1.clients[i]? with
+  | none => .ok s1
+  | some c1 =>
+    if c1.state == .waitClose then closeClient s1 i
+    else if c1.state == .closed then .ok s1
+    else if c1.out.isNone then
+      if c1.chnInd != 0 then
+        let m := OutMsg.chnChange c1.chnInd s1.dev.scanning
+        .ok (setClient s1 i { c1 with out := some (m, m.size), chnInd := 0 })
+      else if blocked then .ok s1
+      else forwardLoop (c1.backlog + 1) s1 i
+    else .ok s1
 
 /-- body of the loop of `vbi_proxyd_handle_client_sockets` for the client at position `i`, up to (not
 including) the removal of a closed client -/
@@ -417,39 +464,9 @@ def handleClient (cfg : Cfg) (s : State) (i : Nat) : Except Err State :=
   match s.clients[i]? with
   | none => .ok s
   | some c =>
-    -- read / continue writing
-    let r : Except Err (State × Bool) :=
-      if c.rdReady && c.out.isNone then
-        match c.inbox with
-        | [] => (closeClient s i).map (·, false)        -- zero read: connection closed by the peer
-        | m :: rest =>
-          match takeMessage cfg (setClient s i { c with inbox := rest }) i m with
-          | .error e => .error e
-          | .ok (some s1) => .ok (s1, false)
-          | .ok none => (closeClient (setClient s i { c with inbox := rest }) i).map (·, false)
-      else if c.wrReady && c.out.isSome then
-        let (c1, blocked, ok, completed) := handleWrite c
-        let s1 := setClient s i c1
-        let s1 := match completed with
-          | some cm => { s1 with msgs := s1.msgs ++ [(c.id, some cm)] }
-          | none => s1
-        if ok then .ok (s1, blocked) else (closeClient s1 i).map (·, blocked)
-      else .ok (s, false)
-    match r with
+    match hcStage1 cfg s i c with
     | .error e => .error e
-    | .ok (s1, blocked) =>
-      match s1.clients[i]? with
-      | none => .ok s1
-      | some c1 =>
-        if c1.state == .waitClose then closeClient s1 i
-        else if c1.state == .closed then .ok s1
-        else if c1.out.isNone then
-          if c1.chnInd != 0 then
-            let m := OutMsg.chnChange c1.chnInd s1.dev.scanning
-            .ok (setClient s1 i { c1 with out := some (m, m.size), chnInd := 0 })
-          else if blocked then .ok s1
-          else forwardLoop (c1.backlog + 1) s1 i
-        else .ok s1
+    | .ok (s1, blocked) => hcStage2 s1 i blocked
 
 /-- the whole loop of `vbi_proxyd_handle_client_sockets`: closed clients are unlinked, and
 `vbi_proxyd_update_services (dev, NULL, ...)` runs if the client had services -/
@@ -485,9 +502,9 @@ def forceLoopWith (live : Bool) : Nat → State → Nat → Nat → Except Err S
       match releaseQ s.dev.q s.dev.free c.backlog with
       | .error e => .error e
       | .ok (q, f) =>
-        let seq := (s.dev.q.getD (c.backlog - 1) default).frame.seq
+        let fr := (s.dev.q.getD (c.backlog - 1) default).frame
         let s1 := setClient { s with dev := { s.dev with q := q, free := f } } i
-          { c with backlog := c.backlog - 1, done := (seq, Fate.overflow) :: c.done }
+          { c with backlog := c.backlog - 1, done := (fr, Fate.overflow c.backlog) :: c.done }
         forceLoopWith live fuel s1 (i + 1) len0
 
 def forceLoop : Nat → State → Nat → Nat → Except Err State := forceLoopWith forceFreeLiveHead
@@ -517,7 +534,7 @@ def forwardData (cfg : Cfg) (s : State) : Except Err State :=
       .ok { s2 with
         dev := { s2.dev with q := { frame := fr, ref := nsub } :: s2.dev.q, free := s2.dev.free - 1 },
         clients := s2.clients.map (fun c =>
-          if c.subscribed then { c with backlog := c.backlog + 1, expected := fr.seq :: c.expected }
+          if c.subscribed then { c with backlog := c.backlog + 1, expected := fr :: c.expected }
           else if c.backlog > 0 then { c with backlog := c.backlog + 1 } else c) }
 
 /-! ## ops -/
@@ -545,21 +562,30 @@ def releaseAll (s : State) : State :=
   { s with dev := { s.dev with q := [], free := s.dev.free + s.dev.q.length },
            clients := s.clients.map (fun c =>
              { c with backlog := 0,
-                      done := ((s.dev.q.take c.backlog).map (fun e => (e.frame.seq, Fate.flushed))) ++ c.done }) }
+                      done := ((s.dev.q.take c.backlog).map (fun e => (e.frame, Fate.flushed))) ++ c.done }) }
+
+/-- `vbi_proxyd_get_fd_set` + `select` for one client socket: reported readable / writable -/
+def markReady (c : Client) : Client :=
+  let wantWrite := c.out.isSome || c.backlog != 0 || c.chnInd != 0
+  { c with rdReady := !wantWrite && (!c.inbox.isEmpty || c.eof),
+           wrReady := wantWrite && (c.credit != 0 || c.eof) }
+
+def selectReady (s : State) : State :=
+  { s with clients := s.clients.map markReady, log := [], msgs := [] }
+
+/-- `vbi_proxyd_add_connection`: the daemon allocates the PROXY_CLNT (state WAIT_CON_REQ, no services, NULL
+cursor) when it accepts -/
+def acceptConn (s : State) : State :=
+  match s.backlogConns with
+  | [] => s
+  | c :: rest =>
+    { s with clients := s.clients ++ [{ id := c.id, inbox := c.inbox, eof := c.eof, credit := c.credit }],
+             backlogConns := rest }
 
 /-- one iteration of `vbi_proxyd_main_loop` -/
 def iterate (cfg : Cfg) (s : State) : Except Err State :=
-  -- vbi_proxyd_get_fd_set + select
   let devReady := s.dev.opened && !s.dev.pend.isEmpty
-  let cl := s.clients.map (fun c =>
-    let wantWrite := c.out.isSome || c.backlog != 0 || c.chnInd != 0
-    { c with rdReady := !wantWrite && (!c.inbox.isEmpty || c.eof),
-             wrReady := wantWrite && (c.credit != 0 || c.eof) })
-  let s := { s with clients := cl, log := [], msgs := [] }
-  -- vbi_proxyd_add_connection
-  let s := match s.backlogConns with
-    | [] => s
-    | c :: rest => { s with clients := s.clients ++ [c], backlogConns := rest }
+  let s := acceptConn (selectReady s)
   match (if devReady then forwardData cfg s else .ok s) with
   | .error e => .error e
   | .ok s1 => clientLoop cfg (2 * s1.clients.length + 1) s1 0
